@@ -121,7 +121,7 @@ vh::Outcome run_def(const vh::Case& c, Prop prop) {
                         auto h = [&] {
                           try {
                             if (kind == 4) return d.lock_shared();
-                            if constexpr (MC<M>::timed) { if (kind == 6) { if (op.a & 1) { timed_for = true; return d.try_lock_shared_for(std::chrono::milliseconds(2)); } return d.try_lock_shared_until(std::chrono::steady_clock::time_point::max()); } }
+                            if constexpr (MC<M>::timed) { if (kind == 6) { if (op.a & 1) { timed_for = true; return d.try_lock_shared_for(std::chrono::milliseconds(2)); } return d.try_lock_shared_until((std::chrono::steady_clock::now() + std::chrono::milliseconds(50))); } }
                             return d.try_lock_shared();
                           } catch (const UserError&) { vrt::fail("foreign-exception", "a shared acquisition threw an exception that belongs to a queued function of another call"); }
                         }();
